@@ -58,6 +58,9 @@ def run(ctx):
     ctx.run_rule("R8-space-check", c04.r3_space_check, F)
     ctx.counts["R8-space-check"] = ctx.counts.get("R3-space-check", 0)
     ctx.run_rule("R9-remap", r9_remap, F)
+    A_ = ctx.facts("A", required=False)
+    if A_ is not None:
+        ctx.run_rule("R2-forget-silent", r2_forget_async, A_)
     # reviewed `unwrap()`s of the INIT compat replies rest on slice length == array length (C12.R3); the header/body split of
     # a reply buffer must cut at the remainder inside the buffer that holds the split point (C04.R3-split)
     from rules import c12
@@ -259,6 +262,21 @@ def r2_forget(ctx, F):
                   "handle_message can reply to FORGET/BATCH_FORGET: the reply at line %s is not excluded for both opcodes (excluded: %s)"
                   % (c.line, sorted(set(neg))[:6]), loc=c.loc())
     ctx.check("R2-forget-silent", "handle_message/sites", len(sites) == 2, "handle_message has %d direct reply sites, expected 2 (oversize refusal, unknown opcode)" % len(sites), loc=b.loc())
+
+
+def r2_forget_async(ctx, A):
+    """The async dispatcher: every reply it issues itself (oversize / short-buffer refusal, unknown opcode) is excluded for FORGET and
+    BATCH_FORGET, like in handle_message."""
+    from rules.c20 import async_frame
+    ha = A.method(common.SERVER, "async_handle_message")
+    body, va = async_frame(A, ha)
+    sites = [c for c in live_calls(body) if c.self_adt == common.SRVCTX and ("reply" in c.name)]
+    for c in sites:
+        pos, neg = common.opcode_guards(va, c.bb)
+        ok = ("Forget" in neg and "BatchForget" in neg)
+        ctx.check("R2-forget-silent", "async_handle_message@%s" % ("refusal" if "Lookup" not in neg else "catch-all"), ok,
+                  "async_handle_message can reply to FORGET/BATCH_FORGET: the reply at line %s is not excluded for both opcodes (excluded: %s)" % (c.line, sorted(set(neg))[:6]), loc=c.loc())
+    ctx.check("R2-forget-silent", "async_handle_message/sites", len(sites) >= 2, "async_handle_message has %d direct reply sites, expected the refusal(s) and the unknown-opcode reply" % len(sites), loc=ha.loc())
 
 
 # ------------------------------------------------------------------ R3
